@@ -647,6 +647,16 @@ def catalog():
                               {"default": True, "labels": [], "body": {"ty": "uint", "name": "dflt", "arr": None}}]},
                           {"k": "union", "name": "u4", "swty": "color", "swvar": "disc", "arms": [
                               {"labels": ["RED"], "body": None}, {"labels": ["BLUE"], "body": {"ty": "double", "name": "a", "arr": None}}]}])
+    # the two label/switch constructs of the golden tests combined: a typedef'd integer discriminant whose labels are enum members and
+    # named constants (data arms, void arms, fall-through)
+    spec("union:typedef-switch-enum-labels", [{"k": "const", "name": "L9", "val": "9"},
+                          {"k": "typedef", "ty": "unsigned int", "name": "uint", "arr": None}, {"k": "typedef", "ty": "int", "name": "sint", "arr": None},
+                          {"k": "union", "name": "u5", "swty": "uint", "swvar": "disc", "arms": [
+                              {"labels": ["GREEN"], "body": {"ty": "int", "name": "a", "arr": None}}, {"labels": ["L9", "RED"], "body": None},
+                              {"labels": ["3"], "body": {"ty": "inner", "name": "b", "arr": None}}, {"labels": ["BLUE"], "body": "void"}]},
+                          {"k": "union", "name": "u6", "swty": "sint", "swvar": "disc", "arms": [
+                              {"labels": ["RED"], "body": {"ty": "sel", "name": "a", "arr": None}}, {"labels": ["GREEN"], "body": "void"},
+                              {"default": True, "labels": [], "body": {"ty": "uint", "name": "dflt", "arr": None}}]}])
     spec("recursive", [{"k": "struct", "name": "node", "fields": [{"ty": "unsigned int", "name": "v", "arr": None, "opt": False}, {"ty": "node", "name": "next", "arr": None, "opt": True}]},
                        {"k": "struct", "name": "tree", "fields": [{"ty": "inner", "name": "label", "arr": None, "opt": False}, {"ty": "tree", "name": "kids", "arr": ["var", "K"], "opt": False}]},
                        {"k": "union", "name": "expr", "swty": "int", "swvar": "kind", "arms": [{"labels": ["0"], "body": {"ty": "int", "name": "lit", "arr": None}},
